@@ -27,6 +27,12 @@ Driver for C18.  One request per line, fields separated by `|`, tokens inside a 
   E|<xsd11 0/1>|<operand: `err <k>` or a value>|<ty>   → `inst=<j> treat=<j>`   (judgement on an operand expression)
         j = T | F | E:<code> (raised by the judgement itself) | O:<k> (the operand's error number k, propagated)
 
+  C|<xsd11 0/1>|<ty>|<value>     → `conv=<r> spec=<r|-> dv=<0|1> lv=<0|1>`   (function conversion rules, XPath 3.1 §3.1.5.2)
+        conv = `convertParam` (the value bound to `$g` in `function($g as ty) {$g}(value)`), spec = `specConvert`
+        (Spec/FuncConv.lean; `-` for a typed function test or a name outside the spec), r = F (type error) | V:<item>,<item>…
+        with item = a<cls> | n | f | m | r;  dv = the live cast table deviates from rules 2-4 on an item of the atomized value
+        (`castDeviates`; 0 by `cast_table_is_rules_2_to_4`), lv = every atomic item has a class with values
+
 Token syntax (Polish notation):
   ty    ::= E | L <leaf> <occ> | F <n> <ty>^n <ty> | M <k> <ty> <occ> | A <ty> <occ>
   leaf  ::= item | node | a <idx> | num | l <idx> | anyType | anySimple | K <kind> <nt> | D <nt>
@@ -44,6 +50,7 @@ import EPV.Lemmas.SeqTypeHist
 import EPV.Lemmas.SeqTypeText
 import EPV.Lemmas.SeqTypeErr
 import EPV.Gen.C18Tables
+import EPV.Props.C18Conv
 open EPV.Proto EPV.SeqType
 
 abbrev P (α : Type) := List String → Option (α × List String)
@@ -196,6 +203,26 @@ def answer (line : String) : String :=
         | .error e => showRes (.error e)
       s!"inst={showRes (instanceOfOwnOcc tables xsd11 occ a r val)} treat={tr}"
     | _, _, _ => "bad-own-occurrence"
+  | ["C", x, t, v] =>
+    match parseAll pTy t, parseAll pValue v with
+    | some ty, some val =>
+      let xsd11 := x == "1"
+      let shI : Item → String
+        | .atom c => s!"a{c}" | .node _ _ _ _ => "n" | .func _ _ => "f" | .map _ => "m" | .array _ => "r"
+      let sh : List Item → String := fun w => "V:" ++ ",".intercalate (w.map shI)
+      let m := match convertParam tables xsd11 ty val with
+        | .ok w => sh w | .error .XPDY0050 => "F" | .error e => showRes (.error e)
+      let specOK := ty.specDefined && (match ty with | .func _ _ => false | .leaf .numeric _ => false | _ => true)
+      let sp := if !specOK then "-" else
+        match specConvert (specTables xsd11) (isRestriction tables) EPV.C18.liveCfg ty val with
+        | some w => sh w | none => "F"
+      let w := atomizedValue tables val
+      let dv := match ty with
+        | .leaf (.atomic t) _ => w.any (castDeviates tables (specTables xsd11) EPV.C18.liveCfg t)
+        | _ => false
+      let lv := atomsLive EPV.C18.liveCls w
+      s!"conv={m} spec={sp} dv={b01 dv} lv={b01 lv}"
+    | _, _ => "bad-conversion"
   | ["E", x, o, t] =>
     match parseAll pTy t with
     | some ty =>
